@@ -8,9 +8,10 @@ package clickhouse_planner
 // The 15-second shortcut answers rate / count_over_time from the pre-aggregated
 // metrics_15s table and plans NO pipeline stage at all. It may therefore only
 // be taken when no stage written in the query has an effect.
-// (A line filter is allowed when it is the empty string; that clause is
-// decided by the code through QuotedString.Unquote and not restated here.)
-//@ spec fn noEffect(p *logql_parser.StrSelectorPipeline) bool = isnil(p.LabelFilter) && isnil(p.Parser) && isnil(p.LineFormat) && isnil(p.LabelFormat) && isnil(p.Unwrap) && isnil(p.Drop)
+// A line filter has no effect only when it asks for lines that contain (|=) or match
+// (|~) the empty string; != "" and !~ "" reject every line. (That the string is empty
+// is decided by the code through QuotedString.Unquote and not restated here.)
+//@ spec fn noEffect(p *logql_parser.StrSelectorPipeline) bool = isnil(p.LabelFilter) && isnil(p.Parser) && isnil(p.LineFormat) && isnil(p.LabelFormat) && isnil(p.Unwrap) && isnil(p.Drop) && (isnil(p.LineFilter) || p.LineFilter.Fn == "|=" || p.LineFilter.Fn == "|~")
 
 //@ func (*github.com/metrico/qryn/reader/logql/logql_parser.QuotedString).Unquote
 //@   modifies nothing
